@@ -352,3 +352,77 @@ End Controller.
 
 Arguments CAssign {V}.
 Arguments CPostponed {V}.
+
+(** ** rule export / import for one setting
+    (recalculation/setting.py Setting.get_param_rule_dict; evolve/parameter_controller.py
+    set_param_rule l.385-420; recalculation/scope.py _LeafDefn.assign_all l.526-585 for a
+    single scope).  A rule is a dict of OPTIONAL fields; [None] = key absent or None. *)
+Section RuleIO.
+  Variable V : Type.
+  Variable ltb : V -> V -> bool.        (* Python < *)
+  Variable truthy : V -> bool.          (* Python bool(v): 0.0 is falsy *)
+  Variable dlower dupper : V.           (* the class-default bounds (get_default_setting) *)
+
+  Inductive setting :=
+  | SConst (v : V)                      (* ConstVal(v) *)
+  | SVar (lower v upper : V)            (* Var((lower, v, upper)) of a numeric parameter *)
+  | SNVar (v : V).                      (* Var((None, v, None)) of a non-scalar parameter *)
+
+  Record rule := mk_rule {
+    r_value : option V; r_const : bool; r_init : option V; r_lower : option V; r_upper : option V }.
+
+  (** get_param_rule_dict: dict(value=, is_constant=True) | dict(init=, lower=, upper=) *)
+  Definition export (s : setting) : rule :=
+    match s with
+    | SConst v => mk_rule (Some v) true None None None
+    | SVar l v u => mk_rule None false (Some v) (Some l) (Some u)
+    | SNVar v => mk_rule None false (Some v) None None
+    end.
+
+  Inductive outcome := ROk (s : setting) | RAssertionError | RValueError.
+
+  Definition cur_value (c : setting) : V := match c with SConst v => v | SVar _ v _ => v | SNVar v => v end.
+  (** get_current_bounds for one scope: a constant (upper == lower) falls back to the class defaults *)
+  Definition cur_bounds (c : setting) : V * V := match c with SVar l _ u => (l, u) | _ => (dlower, dupper) end.
+
+  Definition otruthy (o : option V) : bool := match o with Some v => truthy v | None => false end.
+  Definition odflt (o : option V) (d : V) : V := match o with Some v => v | None => d end.
+
+  (** assign_all for one scope; [c] = the setting currently assigned there *)
+  Definition assign_setting (numeric : bool) (c : setting) (value lower upper : option V) (const : bool) : outcome :=
+    let sv := odflt value (cur_value c) in          (* value is None -> get_mean_current_value *)
+    if const then ROk (SConst sv)
+    else if negb numeric then
+      match lower, upper with
+      | None, None => ROk (SNVar sv)
+      | _, _ => RValueError                         (* doesn't support bounds *)
+      end
+    else
+      let '(cl, cu) := cur_bounds c in
+      let sl := odflt lower cl in
+      let su := odflt upper cu in
+      if ltb su sl then RValueError                 (* Bounds: upper < lower *)
+      else if ltb sv sl then ROk (SVar sl sl su)
+      else if ltb su sv then ROk (SVar sl su su)
+      else ROk (SVar sl sv su).
+
+  (** set_param_rule called with the rule as keyword arguments *)
+  Definition import (numeric : bool) (c : setting) (r : rule) : outcome :=
+    if r_const r then
+      if otruthy (r_init r) || otruthy (r_lower r) || otruthy (r_upper r) then RAssertionError
+      else assign_setting numeric c (r_value r) (r_lower r) (r_upper r) true
+    else
+      match r_init r with
+      | Some i => if otruthy (r_value r) then RAssertionError
+                  else assign_setting numeric c (Some i) (r_lower r) (r_upper r) false
+      | None => assign_setting numeric c (r_value r) (r_lower r) (r_upper r) false
+      end.
+
+  (** which keys a rule carries (observation for the correspondence) *)
+  Definition rule_keys (r : rule) : list bool :=
+    [match r_value r with Some _ => true | None => false end; r_const r;
+     match r_init r with Some _ => true | None => false end;
+     match r_lower r with Some _ => true | None => false end;
+     match r_upper r with Some _ => true | None => false end].
+End RuleIO.
+
